@@ -1,6 +1,6 @@
 # C09 — Responses from other peers cannot affect a request
 PROP = dict(
-    driver='reqpeer', cmd='d_reqpeer', monitors=['MON09'], proof_files=['ReqMgrMsgProofs.v'],
+    driver='reqpeer', cmd='d_reqpeer', monitors=['MON09'], proof_files=['ReqMgrMsgProofs.v', 'ReqMgrMsgMonitor.v'],
     level_text="Theorem C09_holds (frame): for every response-hook oracle, every state of the request table, every message "
                "(any responses with any ids/status/metadata/extensions, any blocks) and every request r in the table whose owner is not "
                "the sender: r's entry (state, terminal error, cancelled flag, last response, loader flag and queue) is unchanged, no event "
@@ -9,7 +9,8 @@ PROP = dict(
                "labels (messages from any peer, new request, executor pick-up / online / pause / release, unpause, cancel, update) r's "
                "final entry and r's events equal those of the sequence with the messages foreign to r removed; C09_locality: requests are "
                "independent under every label. C09_owner_reaches_hook / C09_owner_is_ingested: the owner's response does reach hooks and "
-               "loader. The model (processResponses with filter-hooks-filter order, updateLastResponses, ingest, processTerminations, "
+               "loader. C09_monitor: the executable monitor MON09 accepts every model history (every hook oracle, every label sequence, "
+               "with the cleaned run built from any owner map agreeing with the LNew labels). The model (processResponses with filter-hooks-filter order, updateLastResponses, ingest, processTerminations, "
                "cancelOnError, terminateRequest and the other handlers) is run against the real requestmanager.RequestManager every run "
                "(events and the whole table after every label, via a snapshot taken inside the run loop); the monitor (frame on the "
                "implementation's observations, every hook call made for the calling peer's own request, and identical observations when "
